@@ -22,7 +22,7 @@ from .facts import Fn
 def _call_sites(prog):
     """callee key -> number of call sites in the whole program that resolve to it (any resolution, may-targets included)."""
     idx = getattr(prog, "_inline_sites", None)
-    if idx is None:
+    if not idx:
         idx = {}
         for f in prog.fns.values():
             for _b, t in f.calls():
@@ -51,8 +51,25 @@ def _operands(rv):
     return out
 
 
+_KNOWN = None
+
+
+def known_fns():
+    """The frozen table of functions that existed when the rules were written (rules/known_fns.txt); None when it is missing, in which
+    case nothing is ever spliced."""
+    global _KNOWN
+    if _KNOWN is None:
+        import os
+        p = os.path.join(os.path.dirname(os.path.dirname(os.path.dirname(os.path.abspath(__file__)))), "rules", "known_fns.txt")
+        _KNOWN = frozenset(l.strip() for l in open(p)) if os.path.exists(p) else False
+    return _KNOWN or None
+
+
 def candidates(prog, f, keep=None):
     """[(block index, callee Fn)] of the call sites of f that the view would splice."""
+    known = known_fns()
+    if known is None:
+        return []
     sites = _call_sites(prog)
     rx = re.compile(keep) if keep else None
     out = []
@@ -67,16 +84,64 @@ def candidates(prog, f, keep=None):
             continue
         if g.pub or g.impl_trait or "{closure" in g.key or g.kind not in ("Fn", "AssocFn"):
             continue
+        if g.skey in known:
+            continue            # it was there when the rules were written: rules may name it, and nothing changes on that tree
         if sites.get(g.key, 0) != 1:
             continue
         if rx is not None and rx.search(g.skey):
             continue
         if len(t["args"]) != g.argc:
             continue
+        if g.locals[0].startswith(("core::result::Result<", "core::option::Option<core::result::Result<")) and not _question_mark(f, t):
+            continue            # its error returns would merge into paths that carry on: only `helper(..)?` is looked through
         # a helper that calls back into f, or itself, stays a call
         if any(k in (f.key, g.key) for _b2, t2 in g.calls() for k in prog.targets(t2)):
             continue
         out.append((b.idx, g))
+    return out
+
+
+def _question_mark(f, t):
+    """The call's result is consumed by `?` at once: the continuation block is `Try::branch(move dest)` and nothing else reads dest."""
+    if t.get("to") is None or t["dest"]["p"]:
+        return False
+    nb = f.blocks[t["to"]]
+    nt = nb.term
+    if nt["t"] != "call" or not re.search(r"Try>?::branch$", nt.get("callee") or nt.get("decl") or ""):
+        return False
+    if any(st["s"] == "=" for st in nb.st):
+        return False
+    a = nt["args"][0] if nt["args"] else {}
+    if a.get("k") != "move" or a["pl"]["l"] != t["dest"]["l"] or a["pl"]["p"]:
+        return False
+    d = t["dest"]["l"]
+    uses = 0
+    for b in f.blocks:
+        for st in b.st:
+            if st["s"] == "=" and d in _locals_read(st["rv"]):
+                uses += 1
+        bt = b.term
+        if bt is not nt and d in _locals_read(bt):
+            uses += 1
+    return uses == 0
+
+
+def _locals_read(node, out=None):
+    out = set() if out is None else out
+    if isinstance(node, dict):
+        if "l" in node and "p" in node and isinstance(node["l"], int):
+            out.add(node["l"])
+            for e in node["p"]:
+                if isinstance(e, dict) and isinstance(e.get("ix"), int):
+                    out.add(e["ix"])
+            return out
+        for k, v in node.items():
+            if k == "dest":
+                continue
+            _locals_read(v, out)
+    elif isinstance(node, list):
+        for v in node:
+            _locals_read(v, out)
     return out
 
 
@@ -125,6 +190,7 @@ def view(prog, f, keep=None, depth=2):
         return cache[ck]
     cur = f
     spliced = []
+    spliced_keys = []
     for _round in range(depth):
         cands = candidates(prog, cur, keep)
         if not cands:
@@ -133,6 +199,7 @@ def view(prog, f, keep=None, depth=2):
              "parent": cur.parent, "impl_self": cur.impl_self, "impl_trait": cur.impl_trait, "name": cur.name,
              "default_of_trait": cur.default_of_trait, "pub": cur.pub,
              "blocks": [{"st": copy.deepcopy(b.st), "term": copy.deepcopy(b.term), "cleanup": b.cleanup, "tsp": b.tsp} for b in cur.blocks]}
+        inl_err = list(getattr(cur, "inl_err", ()))
         for bidx, g in cands:
             blk = d["blocks"][bidx]
             t = blk["term"]
@@ -148,6 +215,10 @@ def view(prog, f, keep=None, depth=2):
                 blk["st"].append({"s": "=", "lhs": {"l": off + 1 + i, "p": []}, "rv": {"r": "use", "a": copy.deepcopy(a)}, "sp": sp, "inl": g.key})
             dest, to = t["dest"], t["to"]
             blk["term"] = {"t": "goto", "to": base, "sp": sp}
+            if g.locals[0].startswith(("core::result::Result<", "core::option::Option<core::result::Result<")):
+                from . import prim as P
+                for (eb, ei) in P.error_points(g):
+                    inl_err.append((base + eb, ei))
             for gb in g.blocks:
                 st = copy.deepcopy(gb.st)
                 tm = copy.deepcopy(gb.term)
@@ -161,10 +232,14 @@ def view(prog, f, keep=None, depth=2):
                     nb["term"] = {"t": "goto", "to": to, "sp": gb.tsp}
                 d["blocks"].append(nb)
             spliced.append(g.skey)
+            spliced_keys.append(g.key)
         nf = Fn(d, cur.crate)
         nf.inlined = list(spliced)
+        # an error return of a spliced `helper(..)?` ends the caller too (the `?` that consumes it propagates it): reachability stops there
+        nf.inl_err = inl_err
         cur = nf
     if cur is not f:
         cur.inlined = spliced
+        cur.inlined_keys = spliced_keys
     cache[ck] = cur
     return cur
